@@ -143,6 +143,8 @@ pub struct FnCx<'g> {
     /// binders / explicit arguments for the type parameters, repeated on every auxiliary function
     pub generic_binders: String,
     pub generic_args: String,
+    /// `let v = bytes.view_bits_mut::<Lsb0>()`: v -> bytes
+    pub bit_views: HashMap<String, String>,
 }
 
 pub type K<'a> = &'a dyn Fn(&mut FnCx, Option<Val>) -> R<String>;
@@ -276,6 +278,8 @@ pub fn rust_ty(t: &syn::Type) -> R<Ty> {
                 "char" => Ok(Ty::Char),
                 "str" | "String" => Ok(Ty::Str),
                 "Vec" => Ok(Ty::list(arg(0)?)),
+                // Cow<[T]> / Cow<str>: the borrowed-or-owned distinction is not observable
+                "Cow" | "Arc" | "Rc" | "Box" => arg(0),
                 "BitVec" => Ok(Ty::list(Ty::Bool)),
                 "Option" => Ok(Ty::opt(arg(0)?)),
                 "Result" => {
@@ -320,9 +324,13 @@ fn find_fn<'a>(file: &'a syn::File, item: &Item) -> R<&'a syn::ItemFn> {
 }
 
 fn find_method<'a>(file: &'a syn::File, ty: &str, name: &str) -> R<&'a syn::ImplItemFn> {
+    find_method_in(file, ty, name, false).or_else(|_| find_method_in(file, ty, name, true))
+}
+
+fn find_method_in<'a>(file: &'a syn::File, ty: &str, name: &str, traits: bool) -> R<&'a syn::ImplItemFn> {
     for i in &file.items {
         if let syn::Item::Impl(im) = i {
-            if im.trait_.is_some() {
+            if im.trait_.is_some() != traits {
                 continue;
             }
             let tn = match &*im.self_ty {
@@ -442,6 +450,9 @@ pub fn translate_unit(src: &Path, unit: &Unit, g: &mut Global) -> R<String> {
                 out.push_str(&format!("/- region of `{}`: its statements up to and including the first top-level `for` loop,\n   without the `let`s of {:?} (these are parameters here) -/\n", func_name, skip));
                 out.push_str(&text);
                 out.push('\n');
+            }
+            Item::Mirror(name, text) => {
+                out.push_str(&format!("/- mirror (written by hand in tools/rs2lean/src/targets.rs, part of the trusted base): {} -/\n{}\n\n", name, text));
             }
             Item::Struct(name, keep) => {
                 let (fields, text) = translate_struct(&file, name, keep)?;
@@ -649,6 +660,7 @@ pub fn translate_fn_named(g: &Global, f: &syn::ItemFn, module: &str, owner: Opti
             in_loop_fn: false,
             generic_binders: sig.generics.iter().map(|(n, ord)| format!(" {{{} : Type}} [DecidableEq {}]{}", n, n, if *ord { format!(" (lt_{} : {} → {} → Bool)", n, n, n) } else { String::new() })).collect(),
             generic_args: sig.generics.iter().filter(|(_, o)| *o).map(|(n, _)| format!(" lt_{}", n)).collect(),
+            bit_views: HashMap::new(),
         };
         for p in &sig.params {
             cx.declare(&p.name, p.ty.clone());
